@@ -67,6 +67,9 @@ def main(argv):
         except OSError:
             pass
     obligations = h.obligations(tier, seed)
+    only = os.environ.get("VERIF_ONLY")  # development aid: run the obligations whose id contains this text
+    if only:
+        obligations = [ob for ob in obligations if only in ob.oid]
     results = common.run_obligations(h, obligations)
 
     known = common.load_known()
